@@ -55,7 +55,7 @@ def run_script(mode, sc, sess=None, seed=0):
     def cb(dev_):
         sess.rec.ev('cb')
         cbs.append(1)
-    kw = dict(rsa_keys=keys if sc['nkeys'] else None, auth_timeout_s=7.0, read_timeout_s=3.0, transport_timeout_s=2.0)
+    kw = dict(rsa_keys=keys if sc['nkeys'] else [None, [], ()][seed % 3], auth_timeout_s=7.0, read_timeout_s=3.0, transport_timeout_s=2.0)
     if sc['cb']:
         kw['auth_callback'] = cb
     o = sess.call('connect', **kw)
